@@ -24,7 +24,8 @@ import signal
 
 from engine import dump, traces
 
-LIMIT = 3           # seconds per observed call ("instead of looping"); a normal call takes milliseconds
+LIMIT = 5           # CPU seconds per observed call ("instead of looping"); a normal call takes milliseconds
+WALL_LIMIT = 600    # wall-clock backstop (the machine may be heavily shared: only CPU time is a fair measure)
 MAX_TIMEOUTS = 3    # per worker process: afterwards the worker stops observing (a looping mutant would take hours)
 TIMEOUTS = [0]
 VEC_ID = 10 ** 6    # id offset of the second-component record of a vector-valued case
@@ -51,7 +52,9 @@ class Rec(object):
 
 
 # ---------------------------------------------------------------- values
-DEFAULT_CONSTS = {'pi': (math.pi, 314), 'e': (math.e, 271), 'i': (1j, 1001), 'j': (1j, 1002)}
+# default constants are not integers: they travel as integer codes far outside every value a formula can reach
+# (TLC only compares them); to_int refuses observed values >= 2**28 so that a code can never be a legitimate value
+DEFAULT_CONSTS = {'pi': (math.pi, 500000314), 'e': (math.e, 500000271), 'i': (1j, 500001001), 'j': (1j, 500001002)}
 
 
 def same(a, b, tol=1e-9):
@@ -75,7 +78,7 @@ def to_int(v, comp=0):
     if abs(z.imag) > 1e-9 or cmath.isnan(z) or cmath.isinf(z):
         return 0, False
     r = round(z.real)
-    if abs(z.real - r) > 1e-9 * max(1.0, abs(r)) or abs(r) >= 2 ** 30:
+    if abs(z.real - r) > 1e-9 * max(1.0, abs(r)) or abs(r) >= 2 ** 28:
         return 0, False
     return int(r), True
 
@@ -202,8 +205,10 @@ def set_samples(obs, cfg, samples, codes):
 
 def guarded(fn):
     """run fn() under an alarm; returns (value, exception)"""
+    signal.signal(signal.SIGVTALRM, _alarm)
     signal.signal(signal.SIGALRM, _alarm)
-    signal.alarm(LIMIT)
+    signal.setitimer(signal.ITIMER_VIRTUAL, LIMIT)
+    signal.alarm(WALL_LIMIT)
     try:
         return fn(), None
     except BaseException as e:  # noqa -- classified by the caller
@@ -211,6 +216,7 @@ def guarded(fn):
             raise
         return None, e
     finally:
+        signal.setitimer(signal.ITIMER_VIRTUAL, 0)
         signal.alarm(0)
 
 
